@@ -71,7 +71,7 @@ def keep(o):
 
 def run(ck):
     engine.check_engine(ck, 'C20', actor.proj(keep_out=keep, keys=()), 'Ok (with actual flag) / Invalidated / Requested messages sent',
-                        n_sys_quick=10, families=['aggchain', 'svc', 'diamond', 'fan'], fail_p=0.2, extra=pairs)
+                        n_sys_quick=10, families=['aggchain', 'svc', 'diamond', 'fan'], fail_p=0.2, extra=pairs, n_evflow_quick=16)
 
 
 def replay(ck, path):
